@@ -4,6 +4,7 @@
    correspondence only. *)
 From Coq Require Import String List ZArith QArith Qcanon Bool.
 From NV Require Import Dim.Model Dim.Infer Dim.Sem Dim.Proofs Dim.AcceptProofs Dim.CanonProofs.
+From NV Require Import Dim.Run Dim.RunTreeProofs Dim.CompleteProofs.
 Import ListNotations.
 Open Scope string_scope.
 
@@ -95,6 +96,41 @@ Theorem C02_accept_sound_annotated :
                         tden th ta = Some b -> steq a b.
 Proof. exact accept_sound_inner. Qed.
 Print Assumptions C02_accept_sound_annotated.
+
+(* "Exactly": on the monomorphic arithmetic fragment the checker DECIDES dimensional consistency.
+   danalyse (Dim/CompleteProofs.v) is ordinary dimensional analysis of a closed expression: names
+   carry the dimension of the environment, + - -> need equal dimensions, * / ^ combine exponents,
+   a dimensionful base needs a constant exponent and a dimensionless base a dimensionless exponent.
+   Over an environment that holds exactly the names of g as monomorphic, variable-free dimension
+   types (env_exact), for every expression of the fragment `arith` (non-zero literals, names,
+   unary minus, + - -> * / ^): if dimensional analysis succeeds with d the elaborator accepts with
+   exactly the type d, and if it fails the elaborator rejects.  Hence a rejected expression is
+   dimensionally inconsistent (reject-complete) and an accepted one consistent with the inferred
+   dimension (accept-exact).  PARTIAL: no polymorphic zero, comparisons, conditionals, calls,
+   generic entries, lists — there completeness would need principal types of the solver. *)
+Theorem C02_decides_partial :
+  forall (gs : env) (g : string -> option dtype), env_exact gs g ->
+  forall e, arith e -> forall s, tc_env s = gs ->
+    match danalyse g e with
+    | Some d => exists ns s1, elab_expr e s = Ok (TDim d, ns, s1) /\ tc_env s1 = gs /\ novar d = true
+    | None => exists er, elab_expr e s = Err er
+    end.
+Proof. exact accepts_iff. Qed.
+Print Assumptions C02_decides_partial.
+
+Theorem C02_reject_complete_partial :
+  forall (gs : env) (g : string -> option dtype), env_exact gs g ->
+  forall e, arith e -> forall s er, tc_env s = gs ->
+    elab_expr e s = Err er -> danalyse g e = None.
+Proof. exact reject_complete. Qed.
+Print Assumptions C02_reject_complete_partial.
+
+Theorem C02_accept_exact_partial :
+  forall (gs : env) (g : string -> option dtype), env_exact gs g ->
+  forall e, arith e -> forall s t ns s1, tc_env s = gs ->
+    elab_expr e s = Ok (t, ns, s1) -> exists d, danalyse g e = Some d /\ t = TDim d.
+Proof. exact accept_exact. Qed.
+Print Assumptions C02_accept_exact_partial.
 
 (* The representation invariant behind "the reported type equals the dimension": every factor list
    produced by DType::try_canonicalize (hence by multiply / divide / power / from_factors) is
@@ -200,4 +236,29 @@ Proof.
   intros vsem Hl BH. destruct vsem as [|v0 [|? ?]]; try discriminate.
   destruct (BH (TVar (VQuant 0)) (or_introl eq_refl)) as [d Hd]. simpl in Hd. inversion Hd; subst.
   split; [repeat constructor|]; unfold tdef; simpl; eauto.
+Qed.
+
+(* the decision theorem is not vacuous: the two-unit environment is exact for its run-time
+   reading, `meter / second ^ 2` analyses to Length / Time^2, `meter + second` and
+   `meter ^ second` do not analyse (and are rejected, by the theorem) *)
+Definition exd_env : env :=
+  [("meter", IdNormal (Quantified 0 (TDim [(FBase "Length", Qc1)]) []));
+   ("second", IdNormal (Quantified 0 (TDim [(FBase "Time", Qc1)]) []))].
+Definition exd_g (x : string) : option dtype :=
+  if String.eqb x "meter" then Some [(FBase "Length", Qc1)]
+  else if String.eqb x "second" then Some [(FBase "Time", Qc1)] else None.
+Example C02_decides_nonvacuous :
+  env_exact exd_env exd_g
+  /\ (match danalyse exd_g (EBin ODiv (EUnit "meter") (EBin OPow (EUnit "second") (EScalar (qc 2)))) with
+      | Some d => dtype_eqb d [(FBase "Length", Qc1); (FBase "Time", qc (-2))] | None => false end) = true
+  /\ danalyse exd_g (EBin OAdd (EUnit "meter") (EUnit "second")) = None
+  /\ danalyse exd_g (EBin OPow (EUnit "meter") (EUnit "second")) = None
+  /\ arith (EBin OAdd (EUnit "meter") (EUnit "second")).
+Proof.
+  split.
+  - intro x. unfold exd_env, exd_g. simpl.
+    destruct (String.eqb x "meter"); [repeat split; reflexivity|].
+    destruct (String.eqb x "second"); [repeat split; reflexivity|reflexivity].
+  - split; [vm_compute; reflexivity|]. split; [vm_compute; reflexivity|]. split; [vm_compute; reflexivity|].
+    apply ABin; [auto 10|apply AUnit|apply AUnit].
 Qed.
